@@ -312,13 +312,19 @@ func TestManagerHistories(t *testing.T) {
 				p := pick()
 				v := rapid.SampledFrom([]aesgcm.Variant{aesgcm.VariantTink, aesgcm.VariantCrunchy, aesgcm.VariantNoPrefix}).Draw(rt, "variant")
 				ks := rapid.SampledFrom([]int{16, 32, 24}).Draw(rt, "keysize")
+				var params key.Parameters
 				params, perr := aesgcm.NewParameters(aesgcm.ParametersOpts{KeySizeInBytes: ks, IVSizeInBytes: 12, TagSizeInBytes: 16, Variant: v})
 				if perr != nil {
 					rt.Skip("parameters refused")
 				}
+				op := fmt.Sprintf("AddNewKeyFromParameters(aesgcm %d %v)", ks, v)
+				// one case in four: parameters of the fifth prefix kind (no output prefix, key bound to its ID)
+				if rapid.IntRange(0, 3).Draw(rt, "mldsa_prehash_id") == 0 {
+					params, ks = tk.Must(mldsa.NewParameters(mldsa.MLDSA65, mldsa.VariantNoPrefixWithPrehashID)), 0
+					op = "AddNewKeyFromParameters(mldsa65 NoPrefixWithPrehashID)"
+				}
 				before := p.mgr.VerifSnapshot()
 				id, err := p.mgr.AddNewKeyFromParameters(params)
-				op := fmt.Sprintf("AddNewKeyFromParameters(aesgcm %d %v)", ks, v)
 				// key size 24 is accepted by the parameters; whether a key can be generated is the
 				// library's choice, so the outcome is taken as observed.
 				if after(p, op, before, err, false, ks == 24) {
@@ -326,6 +332,9 @@ func TestManagerHistories(t *testing.T) {
 						fail("%s handed out used id %d", op, id)
 					}
 					learnAppend(p, op, id, keyset.Enabled, false, nil)
+					if req, has := p.mgr.VerifSnapshot()[len(p.mod.entries)-1].Key.IDRequirement(); has != params.HasIDRequirement() || (has && req != id) {
+						fail("%s: id requirement (%d,%v) does not match the parameters / id %d", op, req, has, id)
+					}
 				}
 			},
 			"AddKey": func(rt *rapid.T) {
